@@ -54,14 +54,14 @@ echo "$id: demo_unchanged_exit=$r0 build=$rb existing_tests=$rt demo_patched_exi
 if [ $r0 -eq 0 ] && [ $rb -eq 0 ] && [ $rt -eq 0 ] && [ $r1 -ne 0 ]; then
   mkdir -p seeded/$store
   cp $patch seeded/$store/patch.diff; cp $src/$demo seeded/$store/; cp $src/run.txt seeded/$store/
-  caught=false; case "$chk" in *VIOLATION*) caught=true;; esac
+  caught=false; case "$chk" in *obligation.json*) caught=inconclusive;; *VIOLATION*) caught=true;; esac
   python3 - "$src/meta.json" "seeded/$store/meta.json" "$tp" "$run" "$caught" "$chk" <<'PY'
 import json,sys
 m=json.load(open(sys.argv[1]))
 m["confirmed_by_coordinator"]={"demo_passes_on_unchanged_tree":True,"module_builds_with_patch":True,
   "existing_tests_pass_with_patch":"go test -count=1 "+sys.argv[3],"demo_fails_with_patch":True,"demo_cmd":sys.argv[4]}
 m["check_result_on_patched_tree"]=sys.argv[6]
-m["caught_by_check"]=sys.argv[5]=="true"
+m["caught_by_check"]=(True if sys.argv[5]=="true" else (None if sys.argv[5]=="inconclusive" else False))
 json.dump(m,open(sys.argv[2],"w"),indent=1)
 PY
   cp $log seeded/$store/confirm.log
